@@ -120,13 +120,17 @@ JSON JSON::parse(StringReader& r, bool disable_extensions) {
       }
 
     } else { // decimal
+      // The integer part is also accumulated as a double, since a float's
+      // integer part may not fit in an int64_t (1e19 written out in digits)
       int_data = 0;
+      float_data = 0.0;
       while (!r.eof() && isdigit(r.get_s8(false))) {
-        int_data = int_data * 10 + (r.get_s8() - '0');
+        int8_t digit = r.get_s8() - '0';
+        int_data = int_data * 10 + digit;
+        float_data = float_data * 10.0 + digit;
       }
 
       double this_place = 0.1;
-      float_data = int_data;
       if (!r.eof() && r.get_s8(false) == '.') {
         is_int = false;
         r.get_s8();
